@@ -63,9 +63,13 @@ WORK_US = [0, 30_000, 100_000, 250_000, 1_000_000]
 def _body(w, allow_raise=True):
     steps = []
     for _ in range(w.randint(0, 8)):
-        k = w.weighted([("work", 5), ("msg", 3)])
+        k = w.weighted([("work", 5), ("msg", 3), ("busy", 2)])
         if k == "work":
             steps.append(["work", w.pick(WORK_US)])
+        elif k == "busy":
+            # the caller computes without blocking: k scheduling points, each costing the quantum,
+            # during which the spinner may wake up - both threads are runnable and the scheduler decides
+            steps.append(["busy", w.pick([5, 40, 200])])
         else:
             steps.append(["msg", w.pick(MESSAGES)])
     if allow_raise and w.chance(0.3):
@@ -105,7 +109,7 @@ def gen(S, tier):
     fine = s.chance(0.25 if tier == "quick" else 0.4)
     sc.update({
         "ops": [], "body": body, "second": second,
-        "latency_us": lat, "quantum_us": f.pick([0, 50, 500, 3000]),
+        "latency_us": lat, "quantum_us": f.pick([0, 50, 500, 3000, 3000]),
         "strategy": s.pick(["random", "sticky", "sticky", "pct"]),
         "preempt_p": s.pick([0.02, 0.1, 0.2, 0.5]),
         "pct_depth": s.randint(1, 3),
@@ -313,6 +317,9 @@ def _auto(sc, res, clock, log):
                 for st in body:
                     if st[0] == "work":
                         sched.sleep(st[1] / 1e6)
+                    elif st[0] == "busy":
+                        for _ in range(st[1]):
+                            sched.yield_point("busy")
                     elif st[0] == "msg":
                         res.probe("set_message_while_spinning")
                         ind.set_message(st[1])
